@@ -7,5 +7,5 @@ CONSTANTS
   RawExtra <- RawLong
   Dev <- AllDevs
   Emit = TRUE
-INVARIANTS TypeOK TextRT_Decl Utf8Too_Decl Codecs_Decl AsciiStays FunctionForm Refines Repaired EmitInv
+INVARIANTS TypeOK TextRT_Decl Utf8Too_Decl Codecs_Decl AsciiStays FunctionForm Refines Repaired Distinct EmitInv
 CHECK_DEADLOCK FALSE
